@@ -39,7 +39,7 @@ import (
 // pod names with and without a numeric index (helpers.CompareTask is cyclic
 // there, see docs/notes/C11.md); the coordinator turns it on together with a
 // known-findings entry for the signature below.
-const emitMixedIndexLaw = false
+const emitMixedIndexLaw = true
 const sigMixedIndex = "C11/TaskOrderFn/CompareTask-mixed-pod-index-cycle"
 
 // ---------------------------------------------------------------- tokens
